@@ -50,6 +50,10 @@ def main(argv=None):
         from simkit import selftest
 
         return selftest.crashmodel(args)
+    if args.what == "specificity":
+        from simkit import selftest
+
+        return selftest.specificity(args)
     if args.what == "sensitivity":
         from simkit import selftest
 
